@@ -45,6 +45,18 @@ CHECKS.update({
          "Contexts are restricted to well-formed expressions with exactly one @ (so the hole is never next to a juxtaposition trigger).", "4/C20"),
 })
 
+CHECKS.update({
+ "C07": ("exact decimal reference on hand-written big integers; exhaustive literal-pool block + random trees / division nodes (proptest)",
+         "Exploration: all operator x literal-pool^2 combinations with signs are enumerated; random trees over + - * and random single / % nodes with literals of 1..29 digits and every scale; results compared for exact equality (or the stated 1e-27 bound by cross-multiplication), Err demanded for zero divisors and out-of-range results.",
+         "Trusts harness/src/big.rs (self-tested); intermediates that are in range but need rounding are unspecified and only counted.", "4/C07"),
+ "C09": ("typed reference evaluator (Integer steps in i128, Float steps in f64) vs eval_number; exhaustive operator x mixed pool blocks + random typed trees (proptest)",
+         "Exploration: every binary operator over (Integer ∪ Float ∪ non-finite ∪ @)^2 and every unary/rounding form over the pool plus halves are enumerated; random trees of depth <=5 beyond; variant and value asserted where C09 fixes them, numeric value elsewhere.",
+         "Where an operand's Integer/Float variant is not fixed by C09 the reference follows both readings and asserts only when they agree.", "4/C09"),
+ "C18": ("classification from raw bits (independent of float arithmetic) vs Number::from; exhaustive structured boundary set + random bit patterns (proptest)",
+         "Exploration: ~21k structured boundary patterns (all powers of two +-2 ulp, +-2^63/2^64 neighbourhoods, 2^k+-1/0.5, subnormals, NaNs, infinities) exhaustively, then 2*10^6 (quick) / 2*10^8 (thorough) random patterns, half of them with exponents 2^40..2^70 and sparse mantissas.",
+         "All 2^64 patterns cannot be enumerated; integrality/range boundaries are covered structurally.", "4/C18"),
+})
+
 NOT_YET = {
 }
 
